@@ -370,5 +370,20 @@ def wbEnc (K M : List Nat) : Except Err (List Nat) := do
   let w ← mkWhiteDES K
   w.enc M
 
+/-! ### several generations in one process
+
+The generators take no state: there is no module-level cache, no default argument, no object kept between two calls,
+so in the model a table is a value.  `genSeq` is the program the `wb.seq` lines run on the real code: the network of
+`K1` is generated, the caller then modifies that network's tables in place (`f`, arbitrary: a fault-injection
+experiment on that one instance), then the network of `K2` is generated.  In Lean `f` produces a new first network and
+cannot reach anything the second generation reads; whether that also holds for the Python *objects* (no list shared
+between two calls of a generator or between two `WhiteDES` instances) is not expressible here and is decided by the
+correspondence stream (`wb.seq`: object identity and modify-then-generate on the real code). -/
+def genSeq (K1 : List Nat) (f : WhiteDES → WhiteDES) (K2 : List Nat) : Except Err (WhiteDES × WhiteDES) := do
+  let w1 ← mkWhiteDES K1
+  let w1' := f w1
+  let w2 ← mkWhiteDES K2
+  pure (w1', w2)
+
 end Wb
 end Model
